@@ -60,9 +60,11 @@ func (x *c14ex) raw(n ast.Node) string {
 	return strings.Join(strings.Fields(b.String()), " ")
 }
 
-func (x *c14ex) str(n ast.Node) string {
+func (x *c14ex) str(n ast.Node) string { return x.strSeen(n, map[string]string{}) }
+
+// strSeen: the same with a numbering shared by several prints (the leaves of one path condition)
+func (x *c14ex) strSeen(n ast.Node, seen map[string]string) string {
 	s := x.raw(n)
-	seen := map[string]string{}
 	return c14local.ReplaceAllStringFunc(s, func(m string) string {
 		if _, ok := seen[m]; !ok {
 			seen[m] = "x" + strconv.Itoa(len(seen))
@@ -376,6 +378,152 @@ func (x *c14ex) consts(f *ast.File, want ...string) []string {
 	return out
 }
 
+
+// ---- path conditions (semantic rows) -------------------------------------------------------------------------
+
+type c14cond struct {
+	e   ast.Expr
+	neg bool
+}
+
+func c14contains(n ast.Node, target ast.Node) bool {
+	found := false
+	ast.Inspect(n, func(m ast.Node) bool {
+		if m == target {
+			found = true
+		}
+		return !found
+	})
+	return found
+}
+
+// a block that always leaves: its last statement is continue / break / return
+func c14leaves(b *ast.BlockStmt) bool {
+	if b == nil || len(b.List) == 0 {
+		return false
+	}
+	switch b.List[len(b.List)-1].(type) {
+	case *ast.BranchStmt, *ast.ReturnStmt:
+		return true
+	}
+	return false
+}
+
+// pathTo: the conditions under which `target` (a node inside stmts) is reached: enclosing ifs, negated elses,
+// negated guards met before it in the same statement lists.  Loop conditions and case labels are not conditions.
+func c14pathTo(stmts []ast.Stmt, target ast.Node, acc []c14cond) ([]c14cond, bool) {
+	for _, st := range stmts {
+		if !c14contains(st, target) {
+			if is, ok := st.(*ast.IfStmt); ok && is.Else == nil && c14leaves(is.Body) {
+				acc = append(acc, c14cond{is.Cond, true})
+			}
+			continue
+		}
+		switch s := st.(type) {
+		case *ast.IfStmt:
+			if (s.Init != nil && c14contains(s.Init, target)) || c14contains(s.Cond, target) {
+				return acc, true
+			}
+			if c14contains(s.Body, target) {
+				return c14pathTo(s.Body.List, target, append(acc, c14cond{s.Cond, false}))
+			}
+			acc2 := append(acc, c14cond{s.Cond, true})
+			switch e := s.Else.(type) {
+			case *ast.BlockStmt:
+				return c14pathTo(e.List, target, acc2)
+			case *ast.IfStmt:
+				return c14pathTo([]ast.Stmt{e}, target, acc2)
+			}
+			return acc2, true
+		case *ast.ForStmt:
+			return c14pathTo(s.Body.List, target, acc)
+		case *ast.RangeStmt:
+			return c14pathTo(s.Body.List, target, acc)
+		case *ast.BlockStmt:
+			return c14pathTo(s.List, target, acc)
+		case *ast.SwitchStmt:
+			for _, c := range s.Body.List {
+				if c14contains(c, target) {
+					return c14pathTo(c.(*ast.CaseClause).Body, target, acc)
+				}
+			}
+			return acc, true
+		default:
+			return acc, true
+		}
+	}
+	return acc, false
+}
+
+func (x *c14ex) exOf(e ast.Expr, seen map[string]string) string {
+	switch y := e.(type) {
+	case *ast.ParenExpr:
+		return x.exOf(y.X, seen)
+	case *ast.UnaryExpr:
+		if y.Op == token.NOT {
+			return "(.not " + x.exOf(y.X, seen) + ")"
+		}
+	case *ast.BinaryExpr:
+		switch {
+		case y.Op == token.LAND:
+			return "(.and " + x.exOf(y.X, seen) + " " + x.exOf(y.Y, seen) + ")"
+		case y.Op == token.LOR:
+			return "(.or " + x.exOf(y.X, seen) + " " + x.exOf(y.Y, seen) + ")"
+		case c14isCmp(y.Op):
+			return "(.cmp " + c14lean(y.Op.String()) + " " + c14lean(x.strSeen(y.X, seen)) + " " + c14lean(x.strSeen(y.Y, seen)) + ")"
+		}
+	}
+	return "(.atom " + c14lean(x.strSeen(e, seen)) + ")"
+}
+
+type c14row struct{ key, ex string }
+
+// condTo: the path condition of the k-th node of fn that satisfies pick (source order), as a Lean `Ex`
+func (x *c14ex) condTo(rows *[]c14row, key string, fn ast.Node, body *ast.BlockStmt, pick func(ast.Node) bool) {
+	var targets []ast.Node
+	ast.Inspect(fn, func(m ast.Node) bool {
+		if m != nil && pick(m) {
+			targets = append(targets, m)
+		}
+		return true
+	})
+	if len(targets) == 0 {
+		*rows = append(*rows, c14row{key, "(.atom \"<statement not found>\")"})
+		return
+	}
+	for i, t := range targets {
+		conds, _ := c14pathTo(body.List, t, nil)
+		seen := map[string]string{}
+		ex := ".tt"
+		for j, c := range conds {
+			e := x.exOf(c.e, seen)
+			if c.neg {
+				e = "(.not " + e + ")"
+			}
+			if j == 0 {
+				ex = e
+			} else {
+				ex = "(.and " + ex + " " + e + ")"
+			}
+		}
+		k := key
+		if len(targets) > 1 {
+			k = key + "#" + strconv.Itoa(i)
+		}
+		*rows = append(*rows, c14row{k, ex})
+	}
+}
+
+// a call whose printed function is / ends with name
+func (x *c14ex) isCall(m ast.Node, name string) bool {
+	ce, ok := m.(*ast.CallExpr)
+	if !ok {
+		return false
+	}
+	fn := x.raw(ce.Fun)
+	return fn == name || strings.HasSuffix(fn, "."+name)
+}
+
 func c14lean(s string) string {
 	var b strings.Builder
 	b.WriteByte('"')
@@ -497,14 +645,6 @@ func GenTables(repo, out string) error {
 		}
 		return true
 	})
-	// the equality tests (error record, first tree, number of tips, names); order comparisons are loop plumbing
-	var avcmp []string
-	for _, c := range x.comparisons(av, "", false) {
-		if strings.Contains(c, " != ") || strings.Contains(c, " == ") {
-			avcmp = append(avcmp, c)
-		}
-	}
-	x.add("AvgDistanceMatrix.compare", avcmp...)
 	var opassign []string
 	ast.Inspect(av, func(m ast.Node) bool {
 		if as, ok := m.(*ast.AssignStmt); ok && (as.Tok == token.ADD_ASSIGN || as.Tok == token.QUO_ASSIGN || as.Tok == token.SUB_ASSIGN || as.Tok == token.MUL_ASSIGN) {
@@ -520,15 +660,12 @@ func GenTables(repo, out string) error {
 		return err
 	}
 	// p0 t, p1 maxlen
-	x.add("CutEdgesMaxLength.threshold", x.comparisons(ce, "p1", true)...)
 	x.add("CutEdgesMaxLength.calls", x.calls(ce, "cutEdgesMaxLengthRecur")...)
 	cr, err := need(tr, "Tree", "cutEdgesMaxLengthRecur")
 	if err != nil {
 		return err
 	}
 	// p0 t, p1 tipBag, p2 cur, p3 prev, p4 maxlen, p5 visited
-	x.add("cutEdgesMaxLengthRecur.threshold", x.comparisons(cr, "p4", true)...)
-	x.add("cutEdgesMaxLengthRecur.visited", x.writes(cr, "p5[")...)
 	x.add("cutEdgesMaxLengthRecur.calls", x.calls(cr, "cutEdgesMaxLengthRecur")...)
 
 	at, err := need(bags, "TipBag", "AddTip")
@@ -573,11 +710,48 @@ func GenTables(repo, out string) error {
 		}
 	}
 
+
+	// semantic rows: path conditions
+	var rows []c14row
+	x.condTo(&rows, "pathLengths.write", pl, pl.Body, func(m ast.Node) bool {
+		as, ok := m.(*ast.AssignStmt)
+		return ok && len(as.Lhs) == 1 && strings.HasPrefix(x.raw(as.Lhs[0]), "p2[")
+	})
+	x.condTo(&rows, "pathLengths.recur", pl, pl.Body, func(m ast.Node) bool { return x.isCall(m, "pathLengths") })
+	x.condTo(&rows, "avg.reject", av, av.Body, func(m ast.Node) bool {
+		as, ok := m.(*ast.AssignStmt)
+		return ok && len(as.Rhs) == 1 && x.isCall(as.Rhs[0], "Errorf")
+	})
+	x.condTo(&rows, "avg.add", av, av.Body, func(m ast.Node) bool {
+		as, ok := m.(*ast.AssignStmt)
+		return ok && as.Tok == token.ADD_ASSIGN
+	})
+	x.condTo(&rows, "cut.flood", ce, ce.Body, func(m ast.Node) bool { return x.isCall(m, "cutEdgesMaxLengthRecur") })
+	x.condTo(&rows, "cut.keepBag", ce, ce.Body, func(m ast.Node) bool {
+		as, ok := m.(*ast.AssignStmt)
+		return ok && len(as.Rhs) == 1 && x.isCall(as.Rhs[0], "append")
+	})
+	x.condTo(&rows, "cut.tipEnd", ce, ce.Body, func(m ast.Node) bool { return x.isCall(m, "AddTip") })
+	x.condTo(&rows, "recur.addTip", cr, cr.Body, func(m ast.Node) bool { return x.isCall(m, "AddTip") })
+	x.condTo(&rows, "recur.cross", cr, cr.Body, func(m ast.Node) bool { return x.isCall(m, "cutEdgesMaxLengthRecur") })
+	x.condTo(&rows, "recur.mark", cr, cr.Body, func(m ast.Node) bool {
+		as, ok := m.(*ast.AssignStmt)
+		return ok && len(as.Lhs) == 1 && strings.HasPrefix(x.raw(as.Lhs[0]), "p5[")
+	})
+	x.condTo(&rows, "addTip.store", at, at.Body, func(m ast.Node) bool {
+		as, ok := m.(*ast.AssignStmt)
+		return ok && len(as.Lhs) == 1 && strings.HasPrefix(x.raw(as.Lhs[0]), "p0.tips[")
+	})
+	x.condTo(&rows, "addTip.reject", at, at.Body, func(m ast.Node) bool {
+		r, ok := m.(*ast.ReturnStmt)
+		return ok && len(r.Results) == 1 && x.raw(r.Results[0]) != "nil"
+	})
+
 	var b strings.Builder
 	b.WriteString("-- GENERATED by harness/c14/extract.go (vh gen-tables) from tree/algo.go, tree/edge.go, tree/tree.go,\n")
 	b.WriteString("-- tree/tipbags.go, cmd/matrix.go, cmd/brlencut.go of the working tree; do not edit.\n")
 	b.WriteString("-- Parameters and locals are renamed: receiver, arguments and named results p0, p1, …; locals x0, x1, … by first occurrence in each fact.\n")
-	b.WriteString("namespace Gotree.Gen.C14Sites\n\n")
+	b.WriteString("import Gotree.Model.C14Sites\n\nnamespace Gotree.Gen.C14Sites\nopen Gotree.C14.Sites\n\n")
 	b.WriteString("def facts : List (String × List String) := [\n")
 	for i, f := range x.facts {
 		var vs []string
@@ -589,6 +763,14 @@ func GenTables(repo, out string) error {
 			sep = ""
 		}
 		b.WriteString("  (" + c14lean(f.key) + ", [" + strings.Join(vs, ", ") + "])" + sep + "\n")
+	}
+	b.WriteString("]\n\n/-- path conditions: under which condition the named statement is reached -/\ndef conds : List (String × Ex) := [\n")
+	for i, r := range rows {
+		sep := ","
+		if i == len(rows)-1 {
+			sep = ""
+		}
+		b.WriteString("  (" + c14lean(r.key) + ", " + r.ex + ")" + sep + "\n")
 	}
 	b.WriteString("]\n\nend Gotree.Gen.C14Sites\n")
 	return os.WriteFile(filepath.Join(out, "C14Sites.lean"), []byte(b.String()), 0644)
